@@ -27,18 +27,20 @@ Ltac wf_destruct H :=
 
 (* the generated dispatch (Gen/Mem.v, with im0data.Get/Set translated from cpu.go) is the
    specification's memory access *)
+Lemma W_Get_ok w m a : W_Get w m a = wget w m a.
+Proof.
+  destruct m as [|d]; cbv [W_Get wget im0data_Get user_get_w idx_w]; [reflexivity|].
+  destruct_if; [reflexivity|]. destruct_if; reflexivity.
+Qed.
+Lemma W_Set_ok w m a v : W_Set w m a v = wset w m a v.
+Proof.
+  destruct m as [|d]; cbv [W_Set wset im0data_Set user_set_w]; [reflexivity|].
+  destruct_if; reflexivity.
+Qed.
 Lemma Mem_Get_ok cpu m a : Mem_Get cpu m a = mem_get cpu m a.
-Proof.
-  destruct m as [|d]; cbv [Mem_Get mem_get wget im0data_Get user_get log_ev idx w_log]; cbv_struct.
-  - reflexivity.
-  - destruct_if; cbv_struct; [reflexivity|]. destruct_if; cbv_struct; reflexivity.
-Qed.
+Proof. unfold Mem_Get, mem_get. rewrite W_Get_ok. reflexivity. Qed.
 Lemma Mem_Set_ok cpu m a v : Mem_Set cpu m a v = mem_set cpu m a v.
-Proof.
-  destruct m as [|d]; cbv [Mem_Set mem_set wset im0data_Set user_set]; cbv_struct.
-  - reflexivity.
-  - destruct_if; cbv_struct; reflexivity.
-Qed.
+Proof. unfold Mem_Set, mem_set. rewrite W_Set_ok. reflexivity. Qed.
 
 (* bytes come out of memory *)
 Lemma nth_Z_byte i l : Forall is8 l -> is8 (nth_Z i l).
